@@ -47,7 +47,7 @@ ASSUMPTIONS = [
 BOUNDS = {"quick": {"cases": 9600, "max_files": 18, "shards": 32}, "thorough": {"cases": 200000, "max_files": 28, "shards": 96}}
 
 SUFFIXES = [".py", ".js", ".html", None]
-COMP_DIRS = ["comps", "components", "src/widgets", "_lib/ui", "src/other_comps", "comps_extra", "src/widgets2", "ui [v2]/kit"]  # incl. siblings whose path has another dir as a string prefix
+COMP_DIRS = ["comps", "components", "src/widgets", "_lib/ui", "src/other_comps", "comps_extra", "src/widgets2", "ui [v2]/kit", "comps/inner_lib"]  # incl. siblings whose path has another dir as a string prefix
 APPS = [["vfapp_a", "proj"], ["vfapp_b", "ext"], ["vfpkg.app_c", "proj"], ["vfext.sub.app_d", "ext"], ["vfapp_e", "proj"]]
 APP_DIRS = [None, None, None, ["components"], ["djc"], ["components", "widgets/ui"]]
 DIRNAMES = ["pkg", "pkg", "sub", "sub", "widgets", "card", "card", "a1", "_private", "_private", "__pycache__", "_", ".hidden", ".git", "pkg.v2", "tests", "my-dir", "ünï"]
@@ -100,7 +100,7 @@ def model_entries(sources, suffix):
             if suffix and not parts[-1].endswith(suffix):
                 continue
             full = posixpath.join(d, rel)
-            out[(_dot_path(full, mod_root, prefix), full)] += 1
+            out[(_dot_path(full, mod_root, prefix), full)] = 1  # "each once", also when configured directories are nested in each other
     return out
 
 
